@@ -63,7 +63,8 @@ def main() -> int:
     code = chk.finish()
     if a.update_ledger:
         if code == 0 and not a.only:
-            core.update_ledger(a.prop, [o.name for o in chk.obligations], a.tier)
+            core.update_ledger(a.prop, [o.name for o in chk.obligations], a.tier,
+                               set().union(*[core.abstraction_symbols(getattr(o, "_smt2", None)) for o in chk.obligations]) if chk.obligations else set())
             print(f"ledger updated: {len(chk.obligations)} obligations")
         else:
             print("ledger NOT updated (exit code != 0 or --only given)")
